@@ -119,6 +119,11 @@ def join(a: AV, b: AV) -> AV:
         return b.with_(src=a.src | b.src)
     if b.num == "none" and a.num == "obj":
         return a.with_(src=a.src | b.src)
+    # an uninitialised array (np.empty) has no content of its own
+    if a.cls == "empty" and b.num == "obj":
+        return b
+    if b.cls == "empty" and a.num == "obj":
+        return a
     elts = None
     if a.elts is not None and b.elts is not None and \
             len(a.elts) == len(b.elts):
@@ -434,6 +439,8 @@ class Interp:
                 parts = self.lib.unpack(self, val, n, stmt)
             if parts is None:
                 ev = val.elem if val.elem is not None else TOP
+                if val.src:
+                    ev = ev.with_(src=ev.src | val.src)
                 parts = [ev] * n
             for t, p in zip(target.elts, parts):
                 if isinstance(t, ast.Starred):
@@ -447,6 +454,9 @@ class Interp:
         if isinstance(target, ast.Subscript):
             # evaluate index for uses
             self.eval(target.slice, env)
+            if self.lib is not None and self.lib.store_subscript(
+                    self, target, val, env, aug):
+                return
             if k is not None:
                 env[k] = val
             else:
@@ -693,15 +703,29 @@ class Interp:
 
     def ev_BoolOp(self, n, env):
         vs = [self.eval(v, env) for v in n.values]
+
+        def tv(v):
+            if v.num == "none":
+                return False
+            if v.cval is not None and v.num in ("bool", "int"):
+                return bool(v.cval)
+            return None
+        if isinstance(n.op, ast.And) and any(tv(v) is False for v in vs):
+            return self.const(False)
+        if isinstance(n.op, ast.Or) and any(tv(v) is True for v in vs):
+            return self.const(True)
         r = vs[0]
         for v in vs[1:]:
             r = join(r, v)
         return r
 
     def ev_Compare(self, n, env):
-        self.eval(n.left, env)
-        for c in n.comparators:
-            self.eval(c, env)
+        l = self.eval(n.left, env)
+        cs = [self.eval(c, env) for c in n.comparators]
+        if self.lib:
+            v = self.lib.compare(self, n, l, cs)
+            if v is not None:
+                return v
         return BOOL
 
     def ev_IfExp(self, n, env):
@@ -941,3 +965,7 @@ class World:
                 it.run()
             except RecursionError:
                 pass
+            for o in observers:
+                fin = getattr(o, "finish", None)
+                if fin:
+                    fin(it)
